@@ -141,7 +141,7 @@ def variants(cfgname, rng):
         yield ("lf-chunkdata", b"POST / HTTP/1.0\r\nTransfer-Encoding: chunked\r\n\r\n4\r\nabcd\n0\r\n\r\n", "INVALID code=400", None, None, None)
         yield ("lf-blank", b"GET / HTTP/1.0\r\n\n", "INVALID code=400", None, None, None)
         yield ("lf-blank", b"GET / HTTP/1.0\r\nA: b\r\n\n", "INVALID code=400", None, None, None)
-        yield ("lf-blank", b"POST / HTTP/1.0\r\nTransfer-Encoding: chunked\r\n\r\n0\r\n\n", "INVALID code=400", None, None, None)
+        yield ("lf-chunkblank", b"POST / HTTP/1.0\r\nTransfer-Encoding: chunked\r\n\r\n0\r\n\n", "INVALID code=400", None, None, None)
         yield ("lf-chunkext", b"POST / HTTP/1.0\r\nTransfer-Encoding: chunked\r\n\r\n4;e\nabcd\r\n0\r\n\r\n", "INVALID code=400", None, None, None)
     # 14 TRACE
     if cfg.b < 5:
@@ -317,7 +317,7 @@ def oracle(case, out):
         if len(vs) != 1 or "code=405" not in vs[0]:
             return "TRACE must be reported with the proposed status 405, got %s" % [l[:60] for l in out if l.startswith("rx=")]
         return None
-    if case.meta.get("cc") == 0 and cls in ("chunk-size", "chunk-syntax", "chunk-term", "lf-chunkline", "lf-chunkdata", "lf-chunkext"):
+    if case.meta.get("cc") == 0 and cls in ("chunk-size", "chunk-syntax", "chunk-term", "lf-chunkline", "lf-chunkdata", "lf-chunkext", "lf-chunkblank"):
         # per-chunk delivery: the head of a chunked request is passed on before its chunks arrive
         if got and got[0].startswith("VALID") and "chunked=1" in got[0] and " b=- " in got[0]:
             got = got[1:]
